@@ -104,3 +104,91 @@ Proof.
       destruct tape as [|[v|v] r]; try discriminate.
       destruct (cmp_tol (u64_to_unit v) q); try discriminate; eapply IH; eauto.
 Qed.
+
+(* ------------------------------------------------------------------ *)
+(* The same with draws restricted to their ranges (what the exact distribution can produce). *)
+Fixpoint all_out_r {A} (P : A -> Prop) (m : prog A) : Prop :=
+  match m with
+  | Ret a => P a
+  | Unif k f => forall i, (i < k)%N -> all_out_r P (f i)
+  | Unif8 k f => forall i, (i < k)%N -> all_out_r P (f i)
+  | Bern _ f => forall b, all_out_r P (f b)
+  | BernRatio _ _ f => forall b, all_out_r P (f b)
+  | Bit f => forall b, all_out_r P (f b)
+  | Choose ws f => forall i, (i < length ws)%nat -> all_out_r P (f i)
+  | ChooseAcc cs f => (forall i, (i < length cs)%nat -> all_out_r P (f (Some i))) /\ all_out_r P (f None)
+  | BernF _ _ f => forall b, all_out_r P (f b)
+  | TrailOnes f => forall n, (n <= 64)%N -> all_out_r P (f n)
+  | BernX _ _ f => forall b, all_out_r P (f b)
+  end.
+
+Lemma all_out_r_bind {A B} (Q : A -> Prop) (P : B -> Prop) (m : prog A) (k : A -> prog B) :
+  all_out_r Q m -> (forall a, Q a -> all_out_r P (k a)) -> all_out_r P (bind m k).
+Proof.
+  induction m as [a|n f IH|n f IH|q f IH|x y f IH|f IH|ws f IH|cs f IH|lo hi f IH|f IH|sure q f IH];
+    cbn [bind all_out_r]; intros Hm Hk; auto.
+  destruct Hm as [H1 H2]. split; auto.
+Qed.
+
+Lemma all_out_r_weaken {A} (P Q : A -> Prop) (m : prog A) :
+  (forall a, P a -> Q a) -> all_out_r P m -> all_out_r Q m.
+Proof.
+  intros HPQ.
+  induction m as [a|n f IH|n f IH|q f IH|x y f IH|f IH|ws f IH|cs f IH|lo hi f IH|f IH|sure q f IH];
+    cbn [all_out_r]; intros Hm; auto.
+  destruct Hm as [H1 H2]. split; auto.
+Qed.
+
+Lemma all_out_is_all_out_r {A} (P : A -> Prop) (m : prog A) : all_out P m -> all_out_r P m.
+Proof.
+  induction m as [a|n f IH|n f IH|q f IH|x y f IH|f IH|ws f IH|cs f IH|lo hi f IH|f IH|sure q f IH];
+    cbn [all_out all_out_r]; intros Hm; auto.
+Qed.
+
+Theorem all_out_r_denote {A} (P : A -> Prop) (m : prog A) :
+  all_out_r P m -> forall p a, In (p, a) (denote m) -> P a.
+Proof.
+  induction m as [a|n f IH|n f IH|q f IH|x y f IH|f IH|ws f IH|cs f IH|lo hi f IH|f IH|sure q f IH];
+    cbn [all_out_r denote]; intros Hm p r0 Hin.
+  - destruct Hin as [E|[]]. now inversion E; subst.
+  - apply in_flat_map in Hin. destruct Hin as [i [Hi Hin]]. apply in_dscale' in Hin. destruct Hin as [p' Hin].
+    apply in_seq in Hi. eapply IH; [|exact Hin]; apply Hm; lia.
+  - apply in_flat_map in Hin. destruct Hin as [i [Hi Hin]]. apply in_dscale' in Hin. destruct Hin as [p' Hin].
+    apply in_seq in Hi. eapply IH; [|exact Hin]; apply Hm; lia.
+  - apply in_app_or in Hin. destruct Hin as [Hin|Hin]; apply in_dscale' in Hin; destruct Hin as [p' Hin];
+      eapply IH; eauto.
+  - apply in_app_or in Hin. destruct Hin as [Hin|Hin]; apply in_dscale' in Hin; destruct Hin as [p' Hin];
+      eapply IH; eauto.
+  - apply in_app_or in Hin. destruct Hin as [Hin|Hin]; apply in_dscale' in Hin; destruct Hin as [p' Hin];
+      eapply IH; eauto.
+  - apply in_flat_map in Hin. destruct Hin as [i [Hi Hin]]. apply in_dscale' in Hin. destruct Hin as [p' Hin].
+    apply in_seq in Hi. eapply IH; [|exact Hin]; apply Hm; lia.
+  - destruct Hm as [Hs Hn]. apply in_flat_map in Hin. destruct Hin as [i [Hi Hin]]. apply in_seq in Hi.
+    destruct (nth i cs (0%Q, 0%Q)) as [mw w].
+    apply in_app_or in Hin. destruct Hin as [Hin|Hin]; apply in_dscale' in Hin; destruct Hin as [p' Hin].
+    + eapply IH; [|exact Hin]; apply Hs; lia.
+    + eapply IH; [|exact Hin]; exact Hn.
+  - apply in_app_or in Hin. destruct Hin as [Hin|Hin]; apply in_dscale' in Hin; destruct Hin as [p' Hin];
+      eapply IH; eauto.
+  - apply in_app_or in Hin. destruct Hin as [Hin|Hin].
+    + apply in_flat_map in Hin. destruct Hin as [i [Hi Hin]]. apply in_dscale' in Hin. destruct Hin as [p' Hin].
+      apply in_seq in Hi. eapply IH; [|exact Hin]; apply Hm; lia.
+    + apply in_dscale' in Hin. destruct Hin as [p' Hin]. eapply IH; [|exact Hin]; apply Hm; lia.
+  - apply in_app_or in Hin. destruct Hin as [Hin|Hin]; apply in_dscale' in Hin; destruct Hin as [p' Hin];
+      eapply IH; eauto.
+Qed.
+
+(* an event that holds on every leaf has the whole mass *)
+Lemma mass_all_out_r {A} (P : A -> bool) (m : prog A) :
+  all_out_r (fun a => P a = true) m -> mass P (denote m) == total (denote m).
+Proof.
+  intros H. unfold total, mass.
+  assert (Hall : forall p a, In (p, a) (denote m) -> P a = true) by (apply all_out_r_denote; exact H).
+  induction (denote m) as [|[p a] d IH]; cbn [map Qsum fold_right]; [reflexivity|].
+  rewrite (Hall p a) by now left.
+  change (fold_right Qplus 0 (map (fun '(p0, a0) => if P a0 then p0 else 0) d))
+    with (Qsum (map (fun '(p0, a0) => if P a0 then p0 else 0) d)).
+  change (fold_right Qplus 0 (map (fun '(p0, _) => if true then p0 else 0) d))
+    with (Qsum (map (fun '(p0, _) => if true then p0 else 0) d)).
+  rewrite IH; [reflexivity|]. intros p' a' Hin. apply (Hall p' a'). now right.
+Qed.
